@@ -152,11 +152,15 @@ def check(run, repo):
                   sample='%s.get_Keq == exp(-(G_products - G_reactants))' % cname)
         run.check(same(Kf * Kr, C(1)), 'ALG.detailed-balance', cname + '.get_Keq', 'Kf*Kr=1',
                   'K_forward * K_reverse = %s, not 1' % show(Kf * Kr, 200), owner.module, fn)
-        Ka = I.call_method(rxn, 'get_Keq', [], dict(kw, rev=False, act=True))
-        dGa = expected_delta(I, rxn, 'get_GoRT', kw, False, True)
-        run.check(same(Ka, D.exp(-dGa)), 'REF.Keq', cname + '.get_Keq', 'act', 'activation equilibrium constant '
-                  'is not exp(-delta G_act/RT)', owner.module, fn)
-        n += 3
+        # every (direction, activation) combination: the reverse activation constant is NOT the reciprocal of the
+        # forward one (different initial states, same transition state)
+        for rev_, act_ in ((False, True), (True, True), (True, False)):
+            Ka = I.call_method(rxn, 'get_Keq', [], dict(kw, rev=rev_, act=act_))
+            dGa = expected_delta(I, rxn, 'get_GoRT', kw, rev_, act_)
+            run.check(same(Ka, D.exp(-dGa)), 'REF.Keq', cname + '.get_Keq', 'rev=%s act=%s' % (rev_, act_),
+                      '%s equilibrium constant (rev=%s) is %s, not exp(-delta G/RT) of that direction'
+                      % ('activation' if act_ else 'reaction', rev_, show(Ka, 200)), owner.module, fn)
+        n += 5
         # 5. keyword routing + caller dictionaries untouched
         owner, fn = repo.find_method(ci, 'get_state_quantity')
         run.fn(owner.qual + '.get_state_quantity')
